@@ -459,6 +459,42 @@ func (p *sparser) primary() (SExpr, error) {
 		}
 		if p.isOp("(") {
 			p.next()
+			if t.val == "calls" || t.val == "lastret" || t.val == "lastarg" || t.val == "countret" {
+				// first argument is a function name, taken as raw text: (*T).M, Iface.M, f
+				depth := 0
+				start := p.peek().pos
+				end := start
+				for {
+					tk := p.peek()
+					if tk.kind == "eof" {
+						return nil, fmt.Errorf("unterminated %s( in %q", t.val, p.src)
+					}
+					if depth == 0 && tk.kind == "op" && (tk.val == "," || tk.val == ")") {
+						break
+					}
+					if tk.kind == "op" && tk.val == "(" {
+						depth++
+					}
+					if tk.kind == "op" && tk.val == ")" {
+						depth--
+					}
+					p.next()
+					end = p.peek().pos
+				}
+				name := strings.TrimSpace(p.src[start:end])
+				args := []SExpr{&SIdent{name}}
+				if p.isOp(",") {
+					p.next()
+					rest, err := p.args()
+					if err != nil {
+						return nil, err
+					}
+					args = append(args, rest...)
+				} else {
+					p.next() // ")"
+				}
+				return &SCall{Fn: t.val, Args: args}, nil
+			}
 			args, err := p.args()
 			if err != nil {
 				return nil, err
